@@ -152,6 +152,7 @@ PROPS["C15"] = {
     "assumptions": ["IsDone is set one step before Done is closed; 'exactly from then on' is read up to that linearisation window"],
 }
 _c14 = [L2("ZZ_S07b_RetryTimeout", 1, labels=["concurrency:"], note="the execution handed to the user function is not modified by the timeout goroutine; P=1"),
+        L2("ZZ_S04b_HalfOpen", 1, params={"max_cap": 1}, labels=["breaker:"], note="the per-execution breaker properties under concurrent executions sharing the breaker (C14: every property above continues to hold)"),
         L2("ZZ_S14a_SharedPolicies", 1, params={"execs": 2}, labels=["concurrency:"], note="2 executions (sync/async) through Retry(Breaker(RateLimiter(Bulkhead))) + standalone API calls on the shared instances; P=1"),
         L2("ZZ_S14b_HedgeInner", 1, labels=["concurrency:"], note="Hedge(Retry(fn)) and Timeout(Hedge(fn)); P=1"),
         L2("ZZ_S07a_Timeout", 2, labels=["concurrency:"], note="race/deadlock/panic verdicts of the timeout scenario"),
